@@ -94,8 +94,41 @@ def run(ctx):
             shutil.rmtree(tmp, ignore_errors=True)
     # ---- C. MolecularData save / load (HDF5 runtime; compared here, exact array equality), twice
     run_molecular(ctx, of, rng, N(12, 80))
+    run_molecular_directory(ctx, of, rng, N(15, 100))
     res = coq_eval_bools(ctx, 'c20', IMPORTS, items, chunk=60)
     judge(ctx, res, meta, 'C20')
+
+def run_molecular_directory(ctx, of, rng, n):
+    """histories on one data directory with auto-generated file names: records that differ in basis, multiplicity, charge or
+    description are different records; after all are saved each loads back with its own attributes"""
+    for i in range(n):
+        tmp = tempfile.mkdtemp(prefix='vf_c20d_')
+        try:
+            geom = [('H', (0.0, 0.0, 0.0)), (rng.choice(['H', 'Li', 'O']), (0.0, 0.0, 0.75))]
+            b0, m0, c0, d0 = rng.choice(['sto-3g', 'cc-pvdz']), rng.choice([1, 2, 3]), rng.choice([1, -1, 2, -2, 0]), rng.choice(['', 'a', '0.75'])
+            # neighbours of one record: each differs from it in exactly one identifying attribute
+            near = [(b0, m0, -c0 if c0 else 1, d0), (b0, m0, c0 + (1 if c0 >= 0 else -1), d0), (b0, m0 % 3 + 1, c0, d0), ('6-31g', m0, c0, d0), (b0, m0, c0, d0 + 'x')]
+            idents = {(b0, m0, c0, d0)} | set(rng.sample(near, rng.choice([1, 2, 3])))
+            idents = sorted(idents); rng.shuffle(idents)
+            recs = []
+            for k, (basis, mult, charge, desc) in enumerate(idents):
+                m = of.MolecularData(geom, basis, mult, charge, description=desc, data_directory=tmp)
+                m.hf_energy = -1.0 - k; m.nuclear_repulsion = 0.5 + k; m.one_body_integrals = np.full((2, 2), float(k + 1))
+                m.save(); recs.append(m)
+            ctx.count('molecular_data_directory', 1, nontrivial_key=repr(idents))
+            names = [os.path.basename(m.filename) for m in recs]
+            bad = None
+            if len(set(names)) != len(names): bad = 'two different records share the file name %r' % [x for x in names if names.count(x) > 1][0]
+            for k, (basis, mult, charge, desc) in enumerate(idents):
+                if bad: break
+                m2 = of.MolecularData(geom, basis, mult, charge, description=desc, data_directory=tmp); m2.load()
+                if (m2.charge, m2.multiplicity, m2.basis, m2.description) != (charge, mult, basis, desc) or m2.hf_energy != -1.0 - k or m2.nuclear_repulsion != 0.5 + k or not np.array_equal(m2.one_body_integrals, np.full((2, 2), float(k + 1))):
+                    bad = 'record %r loads back with attributes of another record (charge %r, hf_energy %r)' % ((basis, mult, charge, desc), m2.charge, m2.hf_energy)
+            if bad: ctx.violation('C20 molecular_data_directory: %s' % bad, {'call': 'MolecularData save/load with generated file names in one directory', 'records': [list(x) for x in idents], 'file_names': names})
+        except Exception as e:
+            ctx.violation('C20 molecular_data_directory: %s: %s' % (type(e).__name__, e), {'call': 'MolecularData save/load with generated names', 'error': repr(e)})
+        finally:
+            shutil.rmtree(tmp, ignore_errors=True)
 
 def run_molecular(ctx, of, rng, n):
     for i in range(n):
